@@ -17,7 +17,8 @@ ERR = {'InvalidStrategy': 'InvalidStrategy', 'InsufficientMargin': 'Insufficient
 
 
 def gen_session(rng, max_n=180, allow_two=True, fast=None, kinds=('futures', 'futures', 'spot'), isolated=None,
-                tfs=('1m', '1m', '3m', '5m', '15m'), data=True, leverage=None, rich=True):
+                tfs=('1m', '1m', '3m', '5m', '15m'), data=True, leverage=None, rich=True, tight=False, vol=4, gap_prob=0.2,
+                lengths=None):
     nsym = rng.choice([1, 1, 2]) if allow_two else 1
     syms = SYMS[:nsym]
     routes = [(s, rng.choice(tfs)) for s in syms]
@@ -28,14 +29,15 @@ def gen_session(rng, max_n=180, allow_two=True, fast=None, kinds=('futures', 'fu
                 if (s, tf) not in routes and (s, tf) not in droutes:
                     droutes.append((s, tf))
     kind = rng.choice(kinds)
-    n = rng.choice([30, 45, 60, 90, 120, max_n])
+    n = rng.choice(lengths or [30, 45, 60, 90, 120, max_n])
     return {
         'kind': kind, 'balance': 100_000, 'fee': rng.choice([0, 0, 1 / 1024, 1 / 512]),
         'leverage': leverage if leverage is not None else rng.choice([1, 2, 5, 10]),
         'isolated': (rng.random() < 0.3) if isolated is None else isolated,
         'fast': (rng.random() < 0.5) if fast is None else fast,
         'syms': syms, 'routes': routes, 'droutes': droutes, 'n': n,
-        'scripts': {s: engine.gen_script(rng, spot=kind == 'spot', rich=rich) for s in syms},
+        'scripts': {s: engine.gen_script(rng, spot=kind == 'spot', rich=rich, tight=tight) for s in syms},
+        'vol': vol, 'gap_prob': gap_prob,
         'candle_seed': rng.randrange(1 << 30),
     }
 
@@ -99,6 +101,7 @@ def run_real(sess, cands, extra_observer=None):
     sidx = {s: i for i, s in enumerate(sess['syms'])}
     ridx = {s: i for i, (s, _) in enumerate(sess['routes'])}
     events = []
+    etimes = []
     holder = {}
 
     def observer(strategy, hook, order=None):
@@ -108,6 +111,7 @@ def run_real(sess, cands, extra_observer=None):
         if hook in HOOKS:
             events.append(f'HOOK {ridx[strategy.symbol]} {hook} {strategy.index} {purecorr.num(strategy.price)} '
                           f'{purecorr.num(strategy.position.qty)}')
+            etimes.append(int(strategy.time))
         if extra_observer:
             extra_observer(strategy, hook, order)
 
@@ -120,16 +124,21 @@ def run_real(sess, cands, extra_observer=None):
             if e[0] == 'SUBMIT':
                 _, n, t, sym, side, typ, qty, price, ro, cur = e
                 events.append(f'SUBMIT {n} {sidx[sym]} {side} {typ} {purecorr.num(qty)} {purecorr.num(price)} {1 if ro else 0}')
+                etimes.append(int(t))
             elif e[0] == 'FILL':
                 _, n, t, sym, side, typ, qty, price = e
                 events.append(f'FILL {n} {int(t)} {purecorr.num(price)} {purecorr.num(qty)}')
+                etimes.append(int(t))
             elif e[0] == 'CANCEL':
                 events.append(f'CANCEL {e[1]} {int(e[2])}')
+                etimes.append(int(e[2]))
             elif e[0] == 'POS':
                 ent = '_' if e[3] is None else purecorr.num(e[3])
                 events.append(f'POS {sidx[e[1]]} {purecorr.num(e[2])} {ent}')
+                etimes.append(etimes[-1] if etimes else 0)
             elif e[0] == 'DAILY':
                 events.append(f'DAILY {int(e[1])} {purecorr.num(e[2])}')
+                etimes.append(int(e[1]))
 
     cfg = bt.config(kind=sess['kind'], balance=sess['balance'], fee=sess['fee'], leverage=sess['leverage'],
                     mode='isolated' if sess['isolated'] else 'cross')
@@ -144,6 +153,7 @@ def run_real(sess, cands, extra_observer=None):
         except Exception as e:  # noqa
             err = e
     flush(tr)
+    tr.event_times = list(etimes)
     if err is not None:
         events.append('REJECT ' + ERR.get(type(err).__name__, 'Other'))
     if tr.final is not None and err is None:
